@@ -1,6 +1,6 @@
 use crate::typed::TypedPath;
-use crate::unix::UnixComponent;
-use crate::windows::WindowsComponent;
+use crate::unix::{UnixComponent, UnixPath};
+use crate::windows::{WindowsComponent, WindowsPath};
 use crate::{private, Component};
 
 /// Byte slice version of [`std::path::Component`] that represents either a Unix or Windows path
@@ -16,7 +16,10 @@ impl private::Sealed for TypedComponent<'_> {}
 impl<'a> TypedComponent<'a> {
     /// Returns path representing this specific component.
     pub fn to_path(&self) -> TypedPath<'a> {
-        TypedPath::derive(self.as_bytes())
+        match self {
+            Self::Unix(c) => TypedPath::Unix(UnixPath::new(c.as_bytes())),
+            Self::Windows(c) => TypedPath::Windows(WindowsPath::new(c.as_bytes())),
+        }
     }
 
     /// Extracts the underlying [`[u8]`] slice.
